@@ -669,9 +669,11 @@ func finish(ch *Check, tier string, t *ShardResult, wall time.Duration, workers 
 				onlyDeaths = false
 			}
 		}
-		// a worker that died (e.g. killed for its memory use) takes its shard with it; violations that the other
-		// workers observed on the real code are facts all the same and are reported as such
-		if !(onlyDeaths && newVio > 0) {
+		// a worker that died (e.g. killed for its memory use) takes its shard with it, and a tree that keeps hidden state
+		// between evaluations makes the explorers' replays diverge; violations that were observed (and re-executed) on the
+		// real code are facts all the same and are reported as such. Without any violation a harness error is exit 2.
+		_ = onlyDeaths
+		if newVio == 0 {
 			return 2
 		}
 	}
